@@ -97,14 +97,22 @@ class Setup:
             # "send" = the device thread delivering the bytes of one message
             from mido.backends._parser_queue import ParserQueue
             pq = ParserQueue()
-            pq._parser.messages = S.AnnDeque()
+            single_writer = len({v for v in sender_of.values() if v}) <= 1
+            if hasattr(pq, '_parser'):
+                pq._parser.messages = S.AnnDeque()
             pq._queue = S.AnnQueue(pq._queue)
 
             class _Adapter:
                 closed = False
 
                 def send(self, msg):
-                    pq.put_bytes(msg.bytes())
+                    b = msg.bytes()
+                    if single_writer and len(b) > 1:
+                        # the device delivers the bytes of one message in two pieces
+                        pq.put_bytes(b[:1])
+                        pq.put_bytes(b[1:])
+                    else:
+                        pq.put_bytes(b)
 
                 def poll(self):
                     return pq.poll()
@@ -112,7 +120,7 @@ class Setup:
                 def iter_pending(self):
                     return pq.iterpoll()
             p = _Adapter()
-            self.q = pq._parser.messages
+            self.q = pq._parser.messages if hasattr(pq, '_parser') else S.AnnDeque()
             self.pq = pq
             self.sendp = {1: p}
             self.recvp = p
